@@ -66,12 +66,6 @@ Definition run_sched (a : list N) : list N :=
 (* C11 / C10 oracle: without a fault the observation is that of the unfragmented run; with the k-th read
    failing, the error surfaces (UnexpectedEof as NotFound, others as Io), nothing is read afterwards and
    the items are a prefix of the fault-free run's *)
-Fixpoint is_prefix_n (p l : list N) : bool :=
-  match p, l with
-  | [], _ => true
-  | x :: p', y :: l' => (x =? y) && is_prefix_n p' l'
-  | _, _ => false
-  end.
 Definition holds_sched (a o : list N) : bool :=
   let s := sched_setup a in
   let data := ss_data s in
